@@ -459,6 +459,27 @@ def hUpd : Handler
     pure ⟨m, updOracle b script impl, br⟩
   | _, _ => none
 
+/-- `updseq [P(b₁,script₁),…]`: one long-lived `UpdateDecoder` decodes b₁ … bₙ in turn; the result of every
+message must be what that message alone prescribes (no state of an earlier `Decode` may reach a later one) -/
+def hUpdSeq : Handler
+  | [ps], impl => do
+    let ps ← Term.asList ps
+    let impls ← Term.asList impl
+    if impls.length != ps.length then
+      return ⟨.atom "length-mismatch", .fail "C16 one result per message", "updseq"⟩
+    let vs ← (ps.zip impls).mapM fun (p, i) =>
+      match p with
+      | .app "P" [b, sc] => hUpd [b, sc] i
+      | _ => none
+    let m := Term.list (vs.map (·.model))
+    let o := match vs.find? fun v => match v.oracle with | .fail _ => true | _ => false with
+      | some v => (match v.oracle with
+          | .fail c => Oracle.fail (c ++ " — on a later message of the same decoder")
+          | x => x)
+      | none => .ok
+    pure ⟨m, o, s!"updseq/n{min ps.length 5}/" ++ ((vs.head?.map (·.branch)).getD "")⟩
+  | _, _ => none
+
 def hFromErr : Handler
   | [t], impl => do
     let e ← Dec.optErr t
@@ -486,6 +507,6 @@ def hBitmap : Handler
 def updateHandlers : List (String × Handler) :=
   attrDecs.map (fun d => ("attr." ++ d.name, hAttr d)) ++
   [("flags", hFlags), ("pfx", hPfx), ("pfxfn", hPfxFn), ("pfxseq", hPfxSeq), ("mp6nh", hMp6Nh), ("mp6pfx", hMp6Pfx),
-   ("mpreach", hMpReach), ("mpunreach", hMpUnreach), ("upd", hUpd), ("fromerr", hFromErr), ("bitmap", hBitmap)]
+   ("mpreach", hMpReach), ("mpunreach", hMpUnreach), ("upd", hUpd), ("updseq", hUpdSeq), ("fromerr", hFromErr), ("bitmap", hBitmap)]
 
 end Driver
